@@ -13,7 +13,7 @@ one() {
     d=$(echo "$res" | grep -a -E "^DETAIL" | head -1 | sed "s/^DETAIL property=[A-Z0-9]* //" | tr -c "[:print:]" "?" | cut -c1-160)
     kind="missed"
     if echo "$v" | grep -q "no-failing-input-found"; then kind="proof-or-correspondence-only"; elif [ -n "$v" ]; then kind="failing-input"; fi
-    echo -e "$name\t$prop\t$rc\t$kind\t$d" > $2/$name.tsv
+    printf '%s\t%s\t%s\t%s\t%s\n' "$name" "$prop" "$rc" "$kind" "$d" > $2/$name.tsv
   else
     echo -e "$name\t$prop\t2\tpatch-does-not-apply\t" > $2/$name.tsv
   fi
